@@ -160,9 +160,13 @@ class Sample:
             except ValueError:
                 raise AldyException(f"Cannot check index of {sam_path}")
 
-            self._prefix = chr_prefix(
-                self.gene.chr, [x["SN"] for x in sam.header["SQ"]]
-            )
+            contigs = [x["SN"] for x in sam.header["SQ"]]
+            self._prefix = chr_prefix(self.gene.chr, contigs)
+            if self._prefix + self.gene.chr not in contigs:
+                raise AldyException(
+                    f"Chromosome {self.gene.chr} is not in the header of {sam_path}: "
+                    + f"no reads for gene {self.gene.name}; skipping it."
+                )
 
             with tempfile.TemporaryDirectory() as tmp:
                 self._realign_indels(tmp, sam, reference)
